@@ -4,6 +4,7 @@ CONSTANTS
   MaxTx = 2
   MaxWrites = 2
   Keys = {"k1", "k2"}
+  MaxReads = 1
   CancelBudget = 2
   ExportCuts = FALSE
 INVARIANTS
